@@ -7,6 +7,8 @@ def c10_stages(ctx):
     t = "quick" if ctx.tier == "quick" else "thorough"
     # open / stat / list / read-all / close sequences over every name, all RetainData policies, both source kinds
     graph_stage(ctx, "cache-opens", "MC_Cache.tla", "Cache.opens.%s.cfg" % t, "cache", ads, workers=8, vh_workers=8)
+    if ctx.tier == "quick":  # (the thorough opens configuration contains the depth-3 trees)
+        graph_stage(ctx, "cache-deep", "MC_Cache.tla", "Cache.deep.quick.cfg", "cache", ads, workers=8, vh_workers=8)
     # handle I/O: reads around the copy-buffer size, seeks, paged directory reads, two interleaved handles
     graph_stage(ctx, "cache-io", "MC_Cache.tla", "Cache.io.%s.cfg" % t, "cache", ads, workers=8, vh_workers=8)
 
@@ -41,8 +43,8 @@ def c11_stages(ctx):
             if x.get("max_concurrent_copies_seen", 0) > 1:
                 ctx.notes.append("stage %s/%s: %d copies of one name were in progress at the same time" % (name, s["adapter"], x["max_concurrent_copies_seen"]))
     ctx.notes.append("cache-conc: %d opener steps forced through the gates" % forced)
-    if ctx.tier != "quick":
-        cache_stress_stage(ctx)
+    # free-running openers on fresh caches (every round's first opens of a name are truly parallel): fewer rounds in the quick tier
+    cache_stress_stage(ctx, rounds=120 if ctx.tier == "quick" else 400)
 
 
 def cache_stress_stage(ctx, rounds=400):
@@ -66,6 +68,11 @@ def cache_stress_stage(ctx, rounds=400):
             if "WARNING: DATA RACE" in p.stderr:
                 i = p.stderr.index("WARNING: DATA RACE")
                 div("data-race", p.stderr[i:i + 1500])
+            if "fatal error:" in p.stderr and "hackpadfs" in p.stderr:
+                # the Go runtime stopped the process inside the library (e.g. "sync: unlock of unlocked mutex"): a crash of the real code
+                i = p.stderr.index("fatal error:")
+                div("fatal-error " + p.stderr[i + 13:i + 60].split("\n")[0].strip().replace(" ", "-"), p.stderr[i:i + 1500])
+                continue
             try:
                 res = json.loads(p.stdout.strip().splitlines()[-1])
             except Exception:
